@@ -36,6 +36,9 @@ def one : Dec := ⟨1, 0⟩
 def eqZero (d : Dec) : Bool := d.coeff == 0
 def eqOne (d : Dec) : Bool := d.coeff == tenPow d.nfd
 
+/-- representation invariant of `fpdec::Decimal`: `i128` coefficient, at most 18 fractional digits -/
+def wf (d : Dec) : Bool := fits d.coeff && decide (d.nfd ≤ maxNfd)
+
 /-- exact rational value -/
 def toRat (d : Dec) : Rat := (d.coeff : Rat) / pow10 d.nfd
 
@@ -131,7 +134,7 @@ def arith : Arith Dec where
   neg := neg
   beq := beq
   pcmp := pcmp
-  val := fun d => some d.toRat
+  val := fun d => if d.wf then some d.toRat else none
   ofLit := ofLit
   same := same
 
